@@ -16,7 +16,10 @@ def handle (opname : String) (a : Args) : Option String :=
   | "pyint" => run (do
       let tok ← str
       pure (match pyInt? tok with | some v => ok (toString v) | none => "ERR ValueError")) a
-  | "splitT" => run (do let toks ← listOf str; pure (ok (fmtChunks (splitT toks)))) a
+  | "splitT" => run (do
+      let toks ← listOf str
+      let (g, ts) := parseCommandLine toks
+      pure (ok (fmtChunks (g :: ts)))) a
   | _ => none
 
 end Cnfgen.Driver.Cli
